@@ -79,6 +79,7 @@ type c34Res struct {
 	triggered  atomic.Bool // trigger came true (the call is sleeping its delay or running)
 	started    bool
 	begin, end int64
+	seen       int64 // stamp taken after post was observed
 	pre, post  serf.SerfState
 	err        error
 	n          int
@@ -230,6 +231,7 @@ func bodyC34(c c34Case, x *vkit.Ctx) {
 			}()
 			r.end = stamp.Add(1)
 			r.post = observe()
+			r.seen = stamp.Add(1)
 		}(i, call)
 	}
 	mon := vkit.StartMonitor()
@@ -355,7 +357,9 @@ func bodyC34(c c34Case, x *vkit.Ctx) {
 					continue
 				}
 				// an earlier Leave had completed; no Shutdown began before this call ended
-				if firstShutdownBegin > r.end {
+				// AND before its resulting state was read (the read comes after the end
+				// stamp; a Shutdown slipping in between legitimately shows "shutdown")
+				if firstShutdownBegin > r.seen {
 					x.Label("leave-after-completed-leave")
 					if r.err != nil {
 						x.Violationf("leave-after-leave-fails", "call %d: Leave after the completed Leave (call %d) returned %v; calls: %s", i, j, r.err, describe())
